@@ -237,3 +237,131 @@ pub fn stream_hist(opt: &HashMap<String, String>) -> i32 {
     fs::write(format!("{}/hist_{}_meta.json", dir, profile_name()), meta).unwrap();
     0
 }
+
+// ------------------------------------------------------------------ dendrogram container ops
+use kodama::Step;
+
+fn dend_ops<T: Bits>(rng: &mut Rng, thorough: bool) -> (Vec<Vec<i128>>, Vec<i128>) {
+    let mut regs: [Dendrogram<T>; 2] = [Dendrogram::new(0), Dendrogram::new(0)];
+    let mut ops: Vec<Vec<i128>> = vec![];
+    let mut out: Vec<i128> = vec![];
+    let nops = rng.range(6, if thorough { 60 } else { 30 });
+    let fl = |rng: &mut Rng| -> T {
+        match rng.below(12) {
+            0 => T::from_f64(0.0), 1 => T::from_f64(-1.5), 2 => T::from_f64(f64::INFINITY),
+            3 => T::from_f64(f64::NAN),
+            _ => T::from_f64([0.5, 1.0, 1.25, 2.0, 3.0, 0.1, 0.7][rng.below(7) as usize]),
+        }
+    };
+    let mut n_cur = [0u64; 2];
+    for _ in 0..nops {
+        let r = rng.below(2) as usize;
+        let mut kind = rng.below(20);
+        let full = regs[r].len() + 1 >= n_cur[r] as usize;
+        if full && (2..=9).contains(&kind) && rng.below(6) != 0 { kind = [0, 1, 10, 12, 14, 16, 18, 19, 13, 11][rng.below(10) as usize]; }
+        if regs[r].is_empty() && (10..=13).contains(&kind) && rng.below(6) != 0 { kind = rng.range(2, 9); }
+        let mut res: Vec<i128>;
+        let op: Vec<i128>;
+        match kind {
+            0 => { let n = if rng.below(5) == 0 { rng.below(3) } else { rng.range(3, 9) }; n_cur[r] = n; regs[r] = Dendrogram::new(n as usize); op = vec![0, r as i128, n as i128]; res = vec![0]; }
+            1 => { let n = if rng.below(5) == 0 { rng.below(3) } else { rng.range(3, 9) }; n_cur[r] = n; regs[r].reset(n as usize); op = vec![1, r as i128, n as i128]; res = vec![0]; }
+            2..=9 => {
+                let (c1, c2, sz) = (rng.below(12) as usize, rng.below(12) as usize, rng.below(9) as usize);
+                let x = fl(rng);
+                op = vec![2, r as i128, c1 as i128, c2 as i128, x.to_bits64() as i128, sz as i128];
+                res = match catch(|| regs[r].push(Step::new(c1, c2, x, sz))) { Ok(()) => vec![0], Err((k, _)) => vec![1, k as i128] };
+            }
+            10 | 11 => {
+                let i = if rng.below(5) == 0 { rng.below(9) as usize } else { rng.below((regs[r].len() as u64).max(1)) as usize };
+                op = vec![3, r as i128, i as i128];
+                res = match catch(|| regs[r][i].clone()) { Ok(s) => vec![2, s.cluster1 as i128, s.cluster2 as i128, s.dissimilarity.to_bits64() as i128, s.size as i128], Err((k, _)) => vec![1, k as i128] };
+            }
+            12 => {
+                let (i, c1, c2) = (if rng.below(5) == 0 { rng.below(9) as usize } else { rng.below((regs[r].len() as u64).max(1)) as usize }, rng.below(12) as usize, rng.below(12) as usize);
+                op = vec![4, r as i128, i as i128, c1 as i128, c2 as i128];
+                res = match catch(|| regs[r][i].set_clusters(c1, c2)) { Ok(()) => vec![0], Err((k, _)) => vec![1, k as i128] };
+            }
+            13 => {
+                let i = if rng.below(5) == 0 { rng.below(9) as usize } else { rng.below((regs[r].len() as u64).max(1)) as usize }; let x = fl(rng);
+                op = vec![5, r as i128, i as i128, x.to_bits64() as i128];
+                res = match catch(|| regs[r][i].dissimilarity = x) { Ok(()) => vec![0], Err((k, _)) => vec![1, k as i128] };
+            }
+            14 | 15 => {
+                let l = if rng.below(5) == 0 { rng.below(20) as usize } else { rng.below((n_cur[r] + regs[r].len() as u64).max(1)) as usize };
+                op = vec![6, r as i128, l as i128];
+                res = match catch(|| regs[r].cluster_size(l)) { Ok(v) => vec![3, v as i128], Err((k, _)) => vec![1, k as i128] };
+            }
+            16 => { op = vec![7, r as i128]; res = vec![3, regs[r].len() as i128]; }
+            17 => { op = vec![8, r as i128]; res = vec![3, regs[r].observations() as i128]; }
+            _ => {
+                // epsilon around the actual differences
+                let mut diffs: Vec<f64> = regs[0].steps().iter().zip(regs[1].steps()).map(|(a, b)| (a.dissimilarity.as_f64() - b.dissimilarity.as_f64()).abs()).filter(|d| d.is_finite()).collect();
+                diffs.push(0.0);
+                let d = diffs[rng.below(diffs.len() as u64) as usize];
+                let e = match rng.below(6) { 0 => 0.0, 1 => d, 2 => d * 0.999, 3 => d * 1.001 + 1e-12, 4 => 10.0, _ => -0.5 };
+                let eps = T::from_f64(e);
+                op = vec![9, eps.to_bits64() as i128];
+                res = vec![4, regs[0].eq_with_epsilon(&regs[1], eps) as i128];
+            }
+        }
+        // mirror most pushes into the other register with a small perturbation so
+        // that eq_with_epsilon sees comparable dendrograms
+        ops.push(op.clone());
+        res.push(-1);
+        out.extend(res);
+        if op[0] == 2 && rng.below(3) != 0 {
+            let o = 1 - r;
+            if n_cur[o] != n_cur[r] && rng.below(2) == 0 { continue; }
+            let x = T::from_bits64(op[4] as u64);
+            let y = match rng.below(4) { 0 => x, 1 => T::from_f64(x.as_f64() + 0.25), 2 => T::from_f64(x.as_f64() * (1.0 + 1e-7)), _ => T::from_f64(x.as_f64() - 0.001) };
+            let (c1, c2, sz) = (op[2] as usize, op[3] as usize, if rng.below(8) == 0 { op[5] as usize + 1 } else { op[5] as usize });
+            let op2 = vec![2, o as i128, c1 as i128, c2 as i128, y.to_bits64() as i128, sz as i128];
+            let mut res2: Vec<i128> = match catch(|| regs[o].push(Step::new(c1, c2, y, sz))) { Ok(()) => vec![0], Err((k, _)) => vec![1, k as i128] };
+            ops.push(op2); res2.push(-1); out.extend(res2);
+        }
+    }
+    (ops, out)
+}
+
+pub fn stream_dend(opt: &HashMap<String, String>) -> i32 {
+    let seed = opt_u64(opt, "seed", 1);
+    let thorough = opt_str(opt, "tier", "quick") == "thorough";
+    let count = opt_u64(opt, "count", if thorough { 4000 } else { 800 }) as usize;
+    let shards = opt_u64(opt, "shards", 16) as usize;
+    let dir = opt_str(opt, "out", "build/streams");
+    let mut rng = Rng::new(seed.wrapping_mul(0x1000_0001).wrapping_add(19));
+    let mut sh = Shards::new(dir, "dend", shards);
+    let mut hist_ops = BTreeMap::new(); let mut hist_out = BTreeMap::new();
+    let mut distinct = HashSet::new(); let mut nontrivial = HashSet::new();
+    let mut samples: Vec<String> = vec![];
+    let mut nops = 0u64;
+    const NAMES: [&str; 10] = ["new", "reset", "push", "index", "set_clusters", "set_dissimilarity", "cluster_size", "len", "observations", "eq_with_epsilon"];
+    for i in 0..count {
+        let wide = rng.below(4) != 0;
+        let (ops, out) = if wide { dend_ops::<f64>(&mut rng, thorough) } else { dend_ops::<f32>(&mut rng, thorough) };
+        let coq = format!("{} [{}]", if wide { "dend64" } else { "dend32" }, ops.iter().map(|o| format!("[{}]", join(o, ";"))).collect::<Vec<_>>().join(";"));
+        sh.add(&format!("d{}", i), ops.len() as u64 * if wide { 1 } else { 30 }, coq.clone(), &out);
+        for o in &ops { bump(&mut hist_ops, NAMES[o[0] as usize]); nops += 1; }
+        let mut pushes_ok = 0;
+        let mut j = 0;
+        for o in &ops {
+            // walk the outputs in step with the ops
+            let mut k = j; while out[k] != -1 { k += 1; }
+            let tag = out[j];
+            bump(&mut hist_out, &format!("{}:{}", NAMES[o[0] as usize], match tag { 0 => "ok".to_string(), 1 => format!("panic{}", out[j + 1]), 2 => "step".to_string(), 3 => "nat".to_string(), _ => format!("bool{}", out[j + 1]) }));
+            if o[0] == 2 && tag == 0 { pushes_ok += 1; }
+            j = k + 1;
+        }
+        let key = hash64(&ops.iter().flat_map(|o| o.iter().map(|&x| x as u64).collect::<Vec<_>>()).collect::<Vec<_>>());
+        distinct.insert(key);
+        if pushes_ok >= 2 { nontrivial.insert(key); }
+        if samples.len() < 2 && ops.len() <= 9 { samples.push(format!("{} -> {}", coq, join(&out, " "))); }
+    }
+    sh.write(HEADER);
+    let meta = format!(
+        "{{\"stream\":\"dend\",\"profile\":{},\"seed\":{},\"evaluations\":{},\"operations\":{},\"distinct\":{},\"distinct_nontrivial\":{},\"ops\":{},\"outcomes\":{},\"samples\":[{}]}}",
+        json_str(profile_name()), seed, count, nops, distinct.len(), nontrivial.len(), json_hist(&hist_ops), json_hist(&hist_out),
+        samples.iter().map(|s| json_str(s)).collect::<Vec<_>>().join(","));
+    fs::write(format!("{}/dend_{}_meta.json", dir, profile_name()), meta).unwrap();
+    0
+}
